@@ -159,5 +159,4 @@ def run(ctx, rep):
 
 
 def replay(ctx, rp):
-    print("replay: re-run ./check C04 (runs are regenerated from the configuration):", rp["first"]["case"])
-    return False
+    return None      # generic replay of harness/main.py (re-executes the check, looks for the recorded signature)
